@@ -75,7 +75,7 @@ COMMON_ASSUMPTIONS = [
 
 PROPS = {
     "C01": {
-        "mc": DEC_MODELS + ["len_tlc", "len_base", "len_step"], "gen": ["decode", "avps", "payload", "decode_big"],
+        "mc": DEC_MODELS + ["len_tlc", "len_base", "len_step"], "gen": ["decode", "avps", "payload", "decode_big", "many_avps"],
         "rule": "TLC-explored boundary grammars of the decoder machine (every run exported and replayed) + seeded "
                 "random / mutated / raw inputs through both entry points, the bare AVP list reader and the per-type "
                 "readers, in a dev build (overflow checks, debug assertions) and a release build, under catch_unwind "
@@ -92,7 +92,7 @@ PROPS = {
                                              "reveal() builds its own SliceReader, so only its requests' bounds (C13) apply there"],
     },
     "C03": {
-        "mc": ["enc_avps", "enc_msgs", "enc_sizes", "enc_huge"], "gen": ["roundtrip_ctl"],
+        "mc": ["enc_avps", "enc_msgs", "enc_sizes", "enc_huge"], "gen": ["roundtrip_ctl", "many_avps"],
         "rule": "value catalogue explored by TLC on the Encoder machine with the specification's decoder applied to the "
                 "result (RoundTrip invariant), each behaviour replayed; seeded random control messages (0..12 AVPs) and "
                 "AVPs of all 40 variants with boundary sizes of the variable parts, up to 65 535-octet messages",
@@ -105,7 +105,7 @@ PROPS = {
         "assumptions": COMMON_ASSUMPTIONS,
     },
     "C05": {
-        "mc": DEC_MODELS + ["dec_flagsq"], "gen": ["decode", "avps", "payload", "flags", "ignored", "decode_big"],
+        "mc": DEC_MODELS + ["dec_flagsq"], "gen": ["decode", "avps", "payload", "flags", "ignored", "decode_big", "many_avps"],
         "rule": "every decode outcome (verdict, value field for field, per-record results) compared with the TLA+ "
                 "decoder's result for the same octets: TLC boundary grammars, flag words under all option sets, seeded "
                 "random / mutated / raw inputs, and pairs differing only in octets the specification ignores",
@@ -140,7 +140,7 @@ PROPS = {
         "assumptions": COMMON_ASSUMPTIONS,
     },
     "C10": {
-        "mc": ["dec_framing", "dec_avprec", "dec_kinds", "dec_data", "dec_loop3", "dec_loop4"], "gen": ["chain"],
+        "mc": ["dec_framing", "dec_avprec", "dec_kinds", "dec_data", "dec_loop3", "dec_loop4"], "gen": ["chain", "many_avps"],
         "rule": "decode -> encode -> strict decode -> encode chains from non-canonical accepted inputs (reserved bits, P/O "
                 "and version under lax options, unset M bit, reserved AVP bits, surplus payload, trailing octets) under "
                 "all option sets; TLC: Normalises on every accepted run of the decoder grammars",
@@ -176,7 +176,7 @@ PROPS = {
         "exhaustive_thorough": True,
     },
     "C15": {
-        "mc": ["dec_loop3", "dec_loop4", "dec_avprec", "dec_ctllen"], "gen": ["ctl_records"],
+        "mc": ["dec_loop3", "dec_loop4", "dec_avprec", "dec_ctllen"], "gen": ["ctl_records", "many_avps"],
         "rule": "all sequences of up to 3 (thorough: 4) records from 8 classes (valid Message Type, other valid, "
                 "undecodable, unknown type, vendor, hidden, length < 6, overrun) explored by TLC and replayed; random "
                 "assemblies of up to 12 good / bad records; error count and order, all-or-nothing",
